@@ -476,6 +476,9 @@ def case_solver(ctx, A, mode):
 # affine family  b = b0 + sum_k t_k e_{i_k}  through a noise-like b0, t_k symbolic in [-SPAN, SPAN].  On these systems
 # the active-set iterations exchange indices (one enters, another leaves) several times in a row.
 SPAN = 4
+# coordinate planes (matrix index, (i, j)) left out of the thorough tier: cold-start exploration hit decision regions
+# thinner than the margin (aborted paths) or undecided by nlsat and needed 300-1800 s; the other 25 planes are decided
+HARD_PLANES = {(0, (0, 4)), (1, (1, 4)), (1, (3, 4)), (2, (1, 3)), (2, (2, 3))}
 CORR5 = [
     {"A": [[2.078125, -0.71875, 1.546875, -2.828125, 1.1875], [-0.71875, 0.703125, -0.640625, 1.53125, 0.796875], [1.546875, -0.640625, 1.1875, -2.25, 0.609375], [-2.828125, 1.53125, -2.25, 4.578125, -0.15625], [1.1875, 0.796875, 0.609375, -0.15625, 4.28125]],
      "b0": [-0.5625, 1.125, -0.5, 1.8125, 1.5]},      # condition number 1513
@@ -959,8 +962,8 @@ BOUNDS = {
     "thorough": "as quick plus 4 SPD matrices of n=3 and 2 of n=4 (tridiagonal, moderately correlated), all D in [-10,10]^n, cold and warm; "
                 "aa.Inversion positive-only with 3 symbolic image values on 3x5 meshes over 3x3 and 3x4 pixel regions (both formalisms, "
                 "cold/warm), 4x4 mesh over 4x4 pixels (4 free parameters, 4 symbolic values), force_edge_pixels_to_zeros with "
-                "linear-function objects only; strongly correlated n=5 systems: all 10 coordinate planes (2 symbolic parameters) per matrix "
-                "cold, 2 planes warm, all segments cold and warm.",
+                "linear-function objects only; strongly correlated n=5 systems: 25 of the 30 coordinate planes (2 symbolic parameters; 5 planes "
+                "listed in HARD_PLANES are not decided within the budget) cold, 2 planes per matrix warm, all segments cold and warm.",
 }
 OUTSIDE = [
     "symbolic matrices F+H (the matrix is always concrete); n > 5 free parameters; the full right-hand-side box for strongly correlated "
@@ -1040,7 +1043,7 @@ def cases(tier):
         import itertools
         for k, e in enumerate(CORR5):
             for d in itertools.combinations(range(5), 2):
-                if (k, list(d)) in pairs_q:
+                if (k, list(d)) in pairs_q or (k, d) in HARD_PLANES:
                     continue
                 out.append(("case_family", {"A": e["A"], "b0": e["b0"], "dirs": list(d), "mode": "cold"}, dict(deep, split=2)))
             for d in ((0, 3), (1, 4)):
